@@ -118,3 +118,13 @@ contract('bespokeasm.assembler.line_object.directive_line.address:AddressOrgLine
                   'forall(lambda s: xval(self._address_expr, s) == text_value(address_expression, s)'
                   ' and xfails(self._address_expr, s) == text_fails(address_expression, s), types={"s": "LabelScope?"})'],
          modifies=[], allocates=True, no_frame_check=True)
+
+# `.align [expr]`: the page size is the expression as written, else the configured default (read by set_start_address, C02)
+contract('bespokeasm.assembler.line_object.directive_line.page_align:PageAlignLine.__init__', name='align-line',
+         props=['C02'],
+         may_raise={'SystemExit': 'True', 'SyntaxError': 'True', 'ValueError': 'True'},
+         ensures=['self._memzone is memzone',
+                  # no expression written: the default, as a number
+                  'implies(not typeis_union_ref(self._page_size), union_is_int(self._page_size)'
+                  ' and union_int(self._page_size) == default_page_size)'],
+         modifies=[], allocates=True, no_frame_check=True)
